@@ -36,12 +36,13 @@ def plainKind : Kind → Bool
   | .wordEnd _ => true
   | .and es => !es.isEmpty
   | .matchFirst _ => true
-  | .opt _ none => true
+  | .opt _ _ => true
   | .many _ none _ => true
   | .notAny _ => true
   | .followedBy _ => true
   | .group _ => true
   | .suppress _ => true
+  | .combine _ _ => true
   | .enhance _ => true
   | .forward (some _) => true
   | _ => false
